@@ -7,6 +7,7 @@ Prints 'FAIL <sequence> :: <what>' lines (at most 20) and a final 'DONE sequence
 Exit code 0 = no failure, 1 = failures.  A crash of the interpreter shows up as a signal / missing DONE line.
 """
 import itertools
+import os
 import json
 import warnings
 import sys
@@ -70,6 +71,9 @@ def expect_of(e, cfg):
         d["reading_form"] = e["reading_form"]
         d["synonym_group_ids"] = e["synonym_group_ids"]
     proj = cfg["projection"]
+    if proj is None:
+        # no override: the projection the Dictionary was configured with
+        proj = cfg.get("dict_projection")
     if proj == "normalized":
         d["surface"] = e["normalized_form"]
     elif proj == "reading":
@@ -273,6 +277,44 @@ def main():
         {"mode": "C", "fields": None, "projection": "reading"},
     ]
     ops = alphabet()
+    # a second Dictionary whose configuration file asks for a projection: tokenizers created from it use that
+    # projection unless create() names another one - "surface" included
+    with open(config_path, encoding="utf-8") as f:
+        cfg2 = json.load(f)
+    cfg2["projection"] = "normalized"
+    path2 = os.path.join(os.path.dirname(os.path.abspath(config_path)), "sudachi_projection_normalized.json")
+    with open(path2, "w", encoding="utf-8") as f:
+        json.dump(cfg2, f, ensure_ascii=False)
+    dic2 = Dictionary(config_path=path2, resource_dir=resource_dir)
+    configs2 = [
+        {"mode": "C", "fields": None, "projection": None, "dict_projection": "normalized"},
+        {"mode": "C", "fields": None, "projection": "surface", "dict_projection": "normalized"},
+        {"mode": "A", "fields": None, "projection": "reading", "dict_projection": "normalized"},
+        {"mode": "B", "fields": None, "projection": "normalized", "dict_projection": "normalized"},
+    ]
+    for cfg in configs2:
+        kwargs = {}
+        if cfg["projection"] is not None:
+            kwargs["projection"] = cfg["projection"]
+        tok = dic2.create(MODES[cfg["mode"]], **kwargs)
+        for t in ORACLE.get("extra_texts", []):
+            n_seq += 1
+            try:
+                ms = tok.tokenize(t)
+                check_list([["X2", t, cfg["projection"]]], ms, t, ORACLE["analyses"][t][cfg["mode"]], cfg, "tokenize(extra text), Dictionary configured with projection=normalized, create(projection=%r)" % (cfg["projection"],))
+            except BaseException as e:
+                if isinstance(e, (KeyboardInterrupt, SystemExit)):
+                    raise
+                fail([["X2", t]], "unexpected exception %s: %s" % (type(e).__name__, e))
+        for d in range(1, max(1, depth - 1) + 1):
+            for seq in itertools.product(ops, repeat=d):
+                n_seq += 1
+                try:
+                    run_sequence(dic2, cfg, list(seq))
+                except BaseException as e:
+                    if isinstance(e, (KeyboardInterrupt, SystemExit)):
+                        raise
+                    fail(list(seq), "unexpected exception %s: %s (Dictionary configured with projection=normalized)" % (type(e).__name__, e))
     # single analyses of the extra texts under every configuration
     for cfg in configs:
         kwargs = {}
